@@ -29,4 +29,11 @@
                  'from C20 js_call_spec and C02 (plus oracle extensionality of the C02 evaluator, '
                  'Proofs/PipelineEvalExt.v); modelling variables left: jscalls (the JavaScript calls a '
                  'record issues, with jscalls_wf / jscalls_stable = the F6 guard at pipeline level), js_of / '
-                 'matches / cf_of (invocation -> call -> Go value)']}
+                 'matches / cf_of (invocation -> call -> Go value)',
+                 'F29 guard (known finding F29): scripts create no global bindings - no top-level '
+                 'let/const/class/var/function, no implicit globals, no mutation of built-ins. The '
+                 "JavaScript VM pool only removes a call's args; C20's Model/Js.v excludes such scripts by "
+                 'type (a script is a function of the globals it can see), js_guard / caches_invisible_js '
+                 'inherit that; the generators stay inside the guard (scripts are expressions or IIFEs); '
+                 'witnesses replays/corpus/C13/f29_a_toplevel_let.json, f29_b_global_var_counter.json '
+                 '(replayed last in the harness process), model witness caches_invisible_refuted_globals']}
